@@ -718,3 +718,4 @@ def run(chk, F):
         "reference slots is value-level liveness and is not decided; disjointness of code ranges is a link-time fact",
         "masm/arm64.rs (cfg(aarch64)) is not analysed on this host",
     ]
+    from rules import a64; a64.run_c10(chk, F)  # noqa: E702  arm64 siblings (aarch64 fact set)
